@@ -384,6 +384,7 @@ def c07(ctx):
     n, e = RG.rule_r6(ctx, prog, only=only)
     ctx.floor("R6", n, 8, "variance/moment routines in the decision table")
     RT.rule_c07(ctx, prog)
+    RT.rule_moment_shift(ctx, prog)
     return dict(
         level="other",
         explanation="(R19) the loop of inner_weighted_var is extracted from MIR as the recurrence W'=W+w, m'=m+(w/W')(x−m), "
